@@ -77,21 +77,23 @@ Section Relax.
 Variable g : geom.
 Variable K : Z.
 Variable v0 : arr.
+Variable strides : list Z.
 Hypothesis G : geom_ok g.
 Notation S := (gS g).
 
 Lemma relax_inv s cur cv stride :
-  Inv g K v0 s -> 0 <= cur < S -> interior_b g cur = true -> stride_ok g stride ->
+  Inv g K strides v0 s -> 0 <= cur < S -> interior_b g cur = true -> stride_ok g stride ->
+  In stride strides ->
   1 <= cv <= sel (vals s) cur ->
-  exists s', relax S cur cv s stride = Ok s' /\ Inv g K v0 s' /\ drops s' = drops s /\
+  exists s', relax S cur cv s stride = Ok s' /\ Inv g K strides v0 s' /\ drops s' = drops s /\
              cv <= sel (vals s') cur.
 Proof.
-  intros I Hcur Hint Hst Hcv.
+  intros I Hcur Hint Hst Hin Hcv.
   destruct (last_not_interior g G) as [Hlast HS1].
   assert (Hnb := interior_step g cur stride G Hint Hst).
   unfold relax. set (nb := cur + stride) in *.
-  destruct I as [Rv Rp Rn Pb Nb Nx Pm Pad Vk Lo Mk] eqn:EI. clear EI.
-  assert (I0 : Inv g K v0 s) by (constructor; assumption).
+  destruct I as [Rv Rp Rn Pb Nb Nx Pm Pad Vk Lo Mk Le] eqn:EI. clear EI.
+  assert (I0 : Inv g K strides v0 s) by (constructor; assumption).
   rewrite (rd_ok _ _ nb Rv) by lia. cbn [bind].
   set (nv := sel (vals s) nb).
   destruct (nv <? cv) eqn:E1;
@@ -168,50 +170,59 @@ Proof.
     destruct (i =? nb) eqn:Y1; [|exact Lo].
     assert (i = nb) by lia. subst i. fold nv in Lo. fold mv in Lo. fold mv. lia.
   - intros i Hi. rewrite sel_put by lia. destruct (i =? nb) eqn:Y1; [lia|]. apply Mk; exact Hi.
+  - intros U HU i Hi. rewrite sel_put by lia. assert (Q := Le U HU i Hi).
+    destruct (i =? nb) eqn:Y1; [|exact Q].
+    assert (i = nb) by lia. subst i.
+    assert (P2 := proj2 HU cur stride ltac:(lia) Hint Hin). fold nb in P2.
+    assert (Qc := Le U HU cur ltac:(lia)).
+    assert (M := Mk (nb + S) ltac:(lia)). fold mv in M. lia.
 Qed.
 
 (* the `for i in range(nstrides)` loop *)
-Lemma relax_all_inv strides : Forall (stride_ok g) strides -> forall s cur cv,
-  Inv g K v0 s -> 0 <= cur < S -> interior_b g cur = true -> 1 <= cv <= sel (vals s) cur ->
-  exists s', fold_res (relax S cur cv) strides s = Ok s' /\ Inv g K v0 s' /\ drops s' = drops s.
+Lemma relax_all_inv sts : Forall (fun st => stride_ok g st /\ In st strides) sts -> forall s cur cv,
+  Inv g K strides v0 s -> 0 <= cur < S -> interior_b g cur = true -> 1 <= cv <= sel (vals s) cur ->
+  exists s', fold_res (relax S cur cv) sts s = Ok s' /\ Inv g K strides v0 s' /\ drops s' = drops s.
 Proof.
-  induction 1 as [|st strides Hst _ IH]; intros s cur cv I Hcur Hint Hcv; cbn [fold_res].
+  induction 1 as [|st sts [Hst Hin] _ IH]; intros s cur cv I Hcur Hint Hcv; cbn [fold_res].
   - exists s. split; [reflexivity|split; [exact I|reflexivity]].
-  - destruct (relax_inv s cur cv st I Hcur Hint Hst Hcv) as (s1 & E1 & I1 & D1 & C1).
+  - destruct (relax_inv s cur cv st I Hcur Hint Hst Hin Hcv) as (s1 & E1 & I1 & D1 & C1).
     rewrite E1. cbn [bind].
     destruct (IH s1 cur cv I1 Hcur Hint ltac:(lia)) as (s2 & E2 & I2 & D2).
     exists s2. split; [exact E2|split; [exact I2|congruence]].
 Qed.
 
 (* the `while current != -1` loop: never out of bounds, never a dropped node, invariant kept *)
-Theorem loop_safe strides : Forall (stride_ok g) strides -> forall fuel cur s,
-  Inv g K v0 s -> -1 <= cur < 2 * S ->
+Theorem loop_safe : Forall (stride_ok g) strides -> forall fuel cur s,
+  Inv g K strides v0 s -> -1 <= cur < 2 * S ->
   match loop fuel S strides cur s with
-  | Ok s' => Inv g K v0 s' /\ drops s' = drops s
+  | Ok s' => Inv g K strides v0 s' /\ drops s' = drops s
   | OutOfFuel => True
   | Oob => False
   | Rejected => False
   end.
 Proof.
-  intros Hst. induction fuel as [|f IH]; intros cur s I Hcur; cbn [loop]; [exact Logic.I|].
+  intros Hst0.
+  assert (Hst : Forall (fun st => stride_ok g st /\ In st strides) strides).
+  { apply Forall_forall. intros st Hin. split; [|exact Hin]. rewrite Forall_forall in Hst0. apply Hst0; exact Hin. }
+  induction fuel as [|f IH]; intros cur s I Hcur; cbn [loop]; [exact Logic.I|].
   destruct (cur =? -1) eqn:E0; [split; [exact I|reflexivity]|].
   destruct (cur <? S) eqn:E1.
-  - rewrite (rd_ok _ _ cur (i_rv _ _ _ _ I)) by lia. cbn [bind].
+  - rewrite (rd_ok _ _ cur (i_rv _ _ _ _ _ I)) by lia. cbn [bind].
     destruct (sel (vals s) cur =? 0) eqn:E2; [split; [exact I|reflexivity]|].
     assert (Hint : interior_b g cur = true).
     { destruct (interior_b g cur) eqn:Eb; [reflexivity|].
-      destruct (i_pad _ _ _ _ I cur ltac:(lia) Eb) as [Z0 _]. lia. }
-    assert (Vc := i_vk _ _ _ _ I cur ltac:(lia)).
+      destruct (i_pad _ _ _ _ _ I cur ltac:(lia) Eb) as [Z0 _]. lia. }
+    assert (Vc := i_vk _ _ _ _ _ I cur ltac:(lia)).
     destruct (relax_all_inv strides Hst s cur (sel (vals s) cur) I ltac:(lia) Hint ltac:(lia))
       as (s1 & R1 & I1 & D1).
     rewrite R1. cbn [bind].
-    rewrite (rd_ok _ _ cur (i_rn _ _ _ _ I1)) by lia. cbn [bind].
-    assert (B := i_nb _ _ _ _ I1 cur ltac:(lia)).
+    rewrite (rd_ok _ _ cur (i_rn _ _ _ _ _ I1)) by lia. cbn [bind].
+    assert (B := i_nb _ _ _ _ _ I1 cur ltac:(lia)).
     specialize (IH (sel (nxt s1) cur) s1 I1 ltac:(lia)).
     destruct (loop f S strides (sel (nxt s1) cur) s1); try exact IH.
     destruct IH as [I2 D2]. split; [exact I2|congruence].
-  - rewrite (rd_ok _ _ cur (i_rn _ _ _ _ I)) by lia. cbn [bind].
-    assert (B := i_nb _ _ _ _ I cur ltac:(lia)).
+  - rewrite (rd_ok _ _ cur (i_rn _ _ _ _ _ I)) by lia. cbn [bind].
+    assert (B := i_nb _ _ _ _ _ I cur ltac:(lia)).
     exact (IH (sel (nxt s) cur) s I ltac:(lia)).
 Qed.
 End Relax.
@@ -226,7 +237,7 @@ Qed.
 Lemma fold_max_upper l x : In x l -> x <= fold_right Z.max 0 l.
 Proof. induction l as [|a l IH]; cbn [In fold_right]; [tauto|]. intros [->|Hx]; [lia|]. specialize (IH Hx). lia. Qed.
 
-Lemma inv_check_sound g K s : inv_check g K s = true -> Inv g K (vals s) s.
+Lemma inv_check_sound g K strides s : inv_check g K s = true -> Inv g K strides (vals s) s.
 Proof.
   unfold inv_check. cbv zeta. set (mx := fold_right Z.max 0 (map (sel (vals s)) (zrange (2 * gS g)))).
   intros Hc.
@@ -258,6 +269,7 @@ Proof.
   - intros i Hi. apply (P1 i Hi).
   - intros i Hi. destruct (P2 i Hi) as [_ Q]. lia.
   - intros i Hi. reflexivity.
+  - intros U [HU _] i Hi. apply HU; exact Hi.
 Qed.
 
 Lemma stride_ok_b_sound g st : stride_ok_b g st = true -> stride_ok g st.
@@ -277,8 +289,8 @@ Proof.
     exists (b :: bs). split; [reflexivity|]. cbn [length]. congruence.
 Qed.
 
-Lemma finish_ok p s K v0 :
-  geom_ok (prep_geom p) -> p_PW p = gPW (prep_geom p) -> Inv (prep_geom p) K v0 s -> inrange (p_vmap p) K ->
+Lemma finish_ok p s K strides v0 :
+  geom_ok (prep_geom p) -> p_PW p = gPW (prep_geom p) -> Inv (prep_geom p) K strides v0 s -> inrange (p_vmap p) K ->
   exists out, finish p s = Ok out /\ zlen out = p_H p.
 Proof.
   intros (HH & HW & H0 & H1) EPW I Rm. unfold finish. cbn [prep_geom gH gW gp0 gp1] in *.
@@ -294,26 +306,24 @@ Proof.
       set (PW := p_W p + 2 * p_p1 p). assert (0 < PW) by lia.
       assert ((r + p_p0 p + 1) * PW <= (p_H p + 2 * p_p0 p) * PW) by (apply Z.mul_le_mono_nonneg_r; lia).
       assert (0 <= (r + p_p0 p) * PW) by nia. nia. }
-    rewrite (rd_ok _ _ _ (i_rv _ _ _ _ I) Hidx). cbn [bind].
-    assert (Vk := i_vk _ _ _ _ I _ Hidx).
+    rewrite (rd_ok _ _ _ (i_rv _ _ _ _ _ I) Hidx). cbn [bind].
+    assert (Vk := i_vk _ _ _ _ _ I _ Hidx).
     rewrite (rd_ok _ _ _ Rm Vk). eexists; reflexivity.
   - exists out. split; [exact E|]. unfold zlen. rewrite Len. unfold zrange. rewrite length_zseq. lia.
 Qed.
 
-(* Index safety and "link has a successor" for the complete model, given that the set-up state of
-   this instance passes the (verified) invariant check. *)
-Theorem model_safe image mask fp :
-  accepted image mask fp = true -> prep_check (prepare image mask fp) = true ->
-  match grey_reconstruction image mask fp with
-  | Ok (out, d) => d = 0 /\ zlen out = zlen image
+(* Index safety and "link has a successor" for the run of any set-up state that passes the
+   (verified) invariant check. *)
+Theorem run_prep_safe p :
+  prep_check p = true ->
+  match run_prep p with
+  | Ok (out, d) => d = 0 /\ zlen out = p_H p
   | OutOfFuel => True
   | Oob => False
   | Rejected => False
   end.
 Proof.
-  intros Hacc Hpc. unfold grey_reconstruction. rewrite Hacc. cbn [negb].
-  set (p := prepare image mask fp) in *.
-  assert (EH : p_H p = zlen image) by reflexivity.
+  intros Hpc. unfold run_prep.
   unfold prep_check in Hpc. cbv zeta in Hpc. set (g := prep_geom p) in *.
   apply andb_prop in Hpc; destruct Hpc as [Hpc Cm].
   apply andb_prop in Hpc; destruct Hpc as [Hpc Ci].
@@ -328,15 +338,28 @@ Proof.
   assert (EPW : p_PW p = gPW g) by lia.
   assert (Hst : Forall (stride_ok g) (p_strides p)).
   { apply Forall_forall. intros st Hin. rewrite forallb_forall in Cs. apply stride_ok_b_sound. apply Cs. exact Hin. }
-  assert (I := inv_check_sound g (p_K p) (p_st p) Ci).
-  assert (L := loop_safe g (p_K p) (vals (p_st p)) G (p_strides p) Hst
+  assert (I := inv_check_sound g (p_K p) (p_strides p) (p_st p) Ci).
+  assert (L := loop_safe g (p_K p) (vals (p_st p)) (p_strides p) G Hst
                  (Datatypes.S (Z.to_nat (2 * p_S p))) (p_cur p) (p_st p) I ltac:(lia)).
   rewrite ES. rewrite ES in L.
   destruct (loop (Datatypes.S (Z.to_nat (2 * gS g))) (gS g) (p_strides p) (p_cur p) (p_st p)) as [s'| | |];
     cbn [bind]; try exact L.
   destruct L as [I' D'].
-  destruct (finish_ok p s' (p_K p) (vals (p_st p)) G EPW I' (inrange_b_sound _ _ Cm)) as (out & E & Len).
-  rewrite E. cbn [bind]. split; [lia|]. rewrite Len. exact EH.
+  destruct (finish_ok p s' (p_K p) (p_strides p) (vals (p_st p)) G EPW I' (inrange_b_sound _ _ Cm)) as (out & E & Len).
+  rewrite E. cbn [bind]. split; [lia|]. exact Len.
+Qed.
+
+Theorem model_safe image mask fp :
+  accepted image mask fp = true -> prep_check (prepare image mask fp) = true ->
+  match grey_reconstruction image mask fp with
+  | Ok (out, d) => d = 0 /\ zlen out = zlen image
+  | OutOfFuel => True
+  | Oob => False
+  | Rejected => False
+  end.
+Proof.
+  intros Hacc Hpc. unfold grey_reconstruction. rewrite Hacc. cbn [negb].
+  exact (run_prep_safe _ Hpc).
 Qed.
 
 (* the hypotheses are satisfiable: the set-up of a concrete instance passes the check *)
@@ -348,13 +371,13 @@ Proof. vm_compute. repeat split; reflexivity. Qed.
 (* partial functional correctness of the loop: the image plane only rises, never above the
    (constant) mask plane — the "between seed and mask" third of IsRecon, in rank space *)
 Theorem loop_between g K v0 strides : geom_ok g -> Forall (stride_ok g) strides ->
-  forall fuel cur s s', Inv g K v0 s -> -1 <= cur < 2 * gS g ->
+  forall fuel cur s s', Inv g K strides v0 s -> -1 <= cur < 2 * gS g ->
   loop fuel (gS g) strides cur s = Ok s' ->
   forall i, 0 <= i < gS g -> sel v0 i <= sel (vals s') i <= sel v0 (i + gS g).
 Proof.
   intros G Hst fuel cur s s' I Hcur E i Hi.
-  assert (L := loop_safe g K v0 G strides Hst fuel cur s I Hcur). rewrite E in L. destruct L as [I' _].
-  assert (A := i_lo _ _ _ _ I' i Hi). assert (B := i_mk _ _ _ _ I' (i + gS g) ltac:(lia)). lia.
+  assert (L := loop_safe g K v0 strides G Hst fuel cur s I Hcur). rewrite E in L. destruct L as [I' _].
+  assert (A := i_lo _ _ _ _ _ I' i Hi). assert (B := i_mk _ _ _ _ _ I' (i + gS g) ltac:(lia)). lia.
 Qed.
 
 (* ------------------------------------------------------------------ the wrapper's stride table *)
@@ -366,7 +389,7 @@ Lemma fp_offsets_bound fp o : Z.odd (zlen fp) = true -> Z.odd (width fp) = true 
   - (zlen fp / 2) <= fst o <= zlen fp / 2 /\ - (width fp / 2) <= snd o <= width fp / 2.
 Proof.
   intros O1 O2. apply Z.odd_spec in O1, O2. destruct O1 as [m1 E1]. destruct O2 as [m2 E2].
-  unfold fp_offsets. intros Hin. apply in_flat_map in Hin. destruct Hin as [a [Ha Hin]].
+  unfold fp_offsets, fp_offsets_at. intros Hin. apply in_flat_map in Hin. destruct Hin as [a [Ha Hin]].
   apply in_flat_map in Hin. destruct Hin as [b [Hb Hin]].
   apply in_zrange in Ha, Hb.
   destruct (fp_get fp a b && negb ((a =? zlen fp / 2) && (b =? width fp / 2))); cbn [In] in Hin; [|tauto].
@@ -379,8 +402,21 @@ Qed.
 Theorem prepare_strides_ok image mask fp : Z.odd (zlen fp) = true -> Z.odd (width fp) = true ->
   Forall (stride_ok (prep_geom (prepare image mask fp))) (p_strides (prepare image mask fp)).
 Proof.
-  intros O1 O2. apply Forall_forall. intros st Hin. unfold prepare in Hin. cbn [p_strides] in Hin.
+  intros O1 O2. apply Forall_forall. intros st Hin. unfold prepare, prepare_offs in Hin. cbn [p_strides] in Hin.
   apply in_map_iff in Hin. destruct Hin as [o [<- Ho]].
   destruct (fp_offsets_bound fp o O1 O2 Ho) as [B1 B2].
-  exists (fst o), (snd o). unfold prepare, prep_geom, gPW. cbn [p_H p_W p_p0 p_p1 gW gp0 gp1]. lia.
+  exists (fst o), (snd o). unfold prepare, prepare_offs, prep_geom, gPW. cbn [p_H p_W p_p0 p_p1 gW gp0 gp1]. lia.
+Qed.
+
+(* second third of IsRecon, in flat/rank space: whatever the loop returns lies below EVERY image
+   that is above the initial image plane and that no dilate-and-clip step along the stride table
+   can raise — i.e. the result never overshoots the reconstruction *)
+Theorem loop_least g K v0 strides : geom_ok g -> Forall (stride_ok g) strides ->
+  forall fuel cur s s', Inv g K strides v0 s -> -1 <= cur < 2 * gS g ->
+  loop fuel (gS g) strides cur s = Ok s' ->
+  forall U, flat_postfixed g strides v0 U -> forall i, 0 <= i < gS g -> sel (vals s') i <= U i.
+Proof.
+  intros G Hst fuel cur s s' I Hcur E U HU i Hi.
+  assert (L := loop_safe g K v0 strides G Hst fuel cur s I Hcur). rewrite E in L. destruct L as [I' _].
+  exact (i_le _ _ _ _ _ I' U HU i Hi).
 Qed.
